@@ -12,6 +12,12 @@ def handle (args : List String) : Option String :=
   | "servex" :: rest => do
     let o ← handleServeX rest
     pure s!"{encInvs o.invs} {encWritten o.written} {encStop o.result}"
+  -- `servepw <ns> <localBare> <jidmap> <pending> <waiter reads> <toks> <progs>`: local requests are
+  -- pending; how much of a response its waiter reads before it closes it plays no role
+  | "servepw" :: ns :: lb :: jm :: pd :: _ :: rest => do
+    let o ← handleServeP (ns :: lb :: jm :: pd :: rest)
+    let dl := if o.delivered.isEmpty then "-" else ",".intercalate (o.delivered.map XmppModel.Xml.hexF)
+    pure s!"{encInvs o.out.invs} {encWritten o.out.written} {encStop o.out.result} {dl}"
   | ["header", toks] => do
     let toks ← XmppModel.Xml.decToks toks
     pure (expectHeader toks)
